@@ -913,15 +913,18 @@ def c14(run: Run):
             else:
                 ops.append("r")
             y = rng.pick(pool)
+            ops.append("st")              # the whole decoder state right after the reset …
             ops.append("d:" + y.hex())
             probes.append((len(ops) - 1, y, cur_us))
             ops.append("r")
         hist = run.add("rawlzma lc=%d lp=%d pb=%d dict=%d us=%s ml=none ops=%s" % (lc, lp, pb, d, us0, ";".join(ops)),
                        oracle=lambda res, meta, peak: "panic in history" if "panic" in res else None, tag="c14:lzma:history")
         for idx, y, us in probes:
-            fresh = run.add("rawlzma lc=%d lp=%d pb=%d dict=%d us=%s ml=none ops=d:%s" % (lc, lp, pb, d, us, y.hex()),
+            # … must equal the state of a freshly constructed decoder (every table and register)
+            fresh = run.add("rawlzma lc=%d lp=%d pb=%d dict=%d us=%s ml=none ops=st;d:%s" % (lc, lp, pb, d, us, y.hex()),
                             oracle=None, tag="c14:lzma:fresh", nontrivial=False)
-            groups.append((hist, idx, fresh))
+            groups.append((hist, idx, fresh, 2))
+            groups.append((hist, idx - 1, fresh, 1))
     lz2 = lzma2_material(run, 60, 300, 6, 30)
     for i in range(sizes(run.tier, 25, 300)):
         pool = []
@@ -948,17 +951,17 @@ def c14(run: Run):
                        tag="c14:lzma2:history")
         for idx, y in probes:
             fresh = run.add("rawlzma2 ops=d:%s" % y.hex(), oracle=None, tag="c14:lzma2:fresh", nontrivial=False)
-            groups.append((hist, idx, fresh))
+            groups.append((hist, idx, fresh, 1))
 
     def post(run):
-        for hist, idx, fresh in groups:
+        for hist, idx, fresh, fpos in groups:
             h = run.impl[hist].split(" ")
             f = run.impl[fresh].split(" ")
-            if len(h) < idx + 2 or len(f) < 2:
+            if len(h) < idx + 2 or len(f) < fpos + 1:
                 continue
-            if h[idx + 1] != f[1]:
+            if h[idx + 1] != f[fpos]:
                 run.report_violation(hist, run.cases[int(hist)][1], run.cases[int(hist)][2], run.impl[hist],
-                                     "after reset, op #%d gave `%s` but a fresh decoder gives `%s`" % (idx, h[idx + 1][:80], f[1][:80]))
+                                     "after reset, op #%d gave `%s` but a fresh decoder gives `%s`" % (idx, h[idx + 1][:80], f[fpos][:80]))
     run.post = post
 
 
